@@ -13,10 +13,11 @@ RULE = ("family 1: all unordered pairs of isomorphism-class representatives (Mol
         "with four element-distinct ligands from {H,F,Cl,Br,I,C,N,O} (all 70 quadruples, ligand chains of 0-2 atoms) R vs S, and "
         "double bonds XYC=CZW with X!=Y, Z!=W over the same elements E vs Z; family 3: all pairs of reaction-graph representatives "
         "(n<=3, every role assignment; stereo reaction universe) whose reactants, products or transition structures differ in the "
-        "family-1 multiset, and every reaction vs its reverse.  Oracle: hash(a) != hash(b).  distinct = pairs compared")
+        "family-1 multiset, every reaction vs its reverse, and ALL 15625 role assignments {none, unchanged, formed, broken, fleeting}^6 on "
+        "four labelled atoms (HHClCl, CCCC, CCHO; both reaction classes; incl. degenerate partner exchanges), decided by hash buckets.  Oracle: hash(a) != hash(b).  distinct = pairs compared")
 ASSUMPTIONS = ["a 64-bit collision among the compared pairs is treated as a violation, as the property says",
                "hashes are computed once per graph and compared as integers"]
-BUDGET = {"quick": 200, "thorough": 1200}
+BUDGET = {"quick": 600, "thorough": 1200}
 MG, SMG, CRG, SCRG = RG.MG, RG.SMG, RG.CRG, RG.SCRG
 ELS = ("H", "F", "Cl", "Br", "I", "C", "N", "O")
 
@@ -32,6 +33,8 @@ def items(tier, seed):
     out += [{"fam": 2, "part": "ez", "chain": k, "tier": tier} for k in (0, 1)]
     out += [{"fam": 2, "part": "isomer-count", "tier": tier}]
     out += [{"fam": 3, "pool": p, "tier": tier} for p in ("CRG", "CRG-as-SCRG", "SCRG")]
+    out += [{"fam": 4, "els": e, "kind": k, "tier": tier} for e in (("H", "H", "Cl", "Cl"), ("C", "C", "C", "C"), ("C", "C", "H", "O"))
+            for k in (CRG, SCRG)]
     return out
 
 
@@ -45,6 +48,8 @@ def run_item(item):
         return _fam1(item, out)
     if item["fam"] == 2:
         return _fam2(item, out)
+    if item["fam"] == 4:
+        return _fam4(item, out)
     return _fam3(item, out)
 
 
@@ -247,4 +252,40 @@ def _fam3(item, out):
     out["outcomes"] = {f"fam3-{item['pool']}-pairs": n, f"fam3-{item['pool']}-reversals": nr,
                        f"fam3-{item['pool']}-distinct-hashes": len(set(hs))}
     out["samples"].append({"family": 3, "pool": item["pool"], "graphs": len(specs), "pairs": n})
+    return out
+
+
+def _fam4(item, out):
+    """family 3 on four labelled atoms: EVERY assignment of {no bond, unchanged, formed, broken, fleeting} to the six atom pairs
+    (5^6 = 15625 labelled reaction graphs per element assignment; partner exchanges A-B + A'-B' -> A-B' + A'-B, whose reactant and
+    product multisets coincide with those of 'nothing happens', are among them).  Graphs are bucketed by hash; every bucket must be
+    uniform in (reactant, product, TS) multisets - that decides all pairs at once."""
+    from collections import Counter
+
+    els, kind = item["els"], item["kind"]
+    pairs = list(itertools.combinations(range(4), 2))
+    roles = (None, "", "FORMED", "BROKEN", "FLEETING")
+    buckets = {}
+    cnt = Counter()
+    n = 0
+    for assign in itertools.product(roles, repeat=6):
+        bonds = [(a, b, r or None) for (a, b), r in zip(pairs, assign) if r is not None]
+        m = U.mk(kind, list(enumerate(els)), bonds)
+        h = _h(m)
+        ms = (mset(m.side("R")), mset(m.side("P")), mset(m.side("TS")))
+        n += 1
+        cnt[ms] += 1
+        buckets.setdefault(h, {}).setdefault(ms, m)
+    for h, d in buckets.items():
+        if len(d) > 1:
+            (m1, m2) = list(d.values())[:2]
+            out["viol"].append({"sig": f"C16/fam3/{E.SHORT[kind]}/four-atoms/collision", "input": f"{U.key(m1)}|{U.key(m2)}",
+                                "what": f"{U.describe(m1)} and {U.describe(m2)} differ in reactant/product/TS multisets but both hash "
+                                        f"to {h} ({len(d)} multiset classes in this bucket)", "item": item, "detail": None})
+    npairs = n * (n - 1) // 2 - sum(c * (c - 1) // 2 for c in cnt.values())
+    out["evals"] = n
+    out["distinct"] = n      # graphs hashed; the pairs they decide are reported in the outcomes
+    out["outcomes"] = {f"fam3-four-atoms-{''.join(els)}-{E.SHORT[kind]}-pairs": npairs,
+                       f"fam3-four-atoms-{''.join(els)}-{E.SHORT[kind]}-distinct-hashes": len(buckets)}
+    out["samples"].append({"family": "3/four-atoms", "elements": list(els), "graphs": n, "multiset_classes": len(cnt)})
     return out
